@@ -1185,6 +1185,7 @@ def tableHasWork (w : World) (T : Table) : Bool :=
 /-- `storage.Shrink`; `bounded` = `stopAfter == 0` (stop after the first table with work),
     otherwise all tables are processed (the wall clock is not modelled). -/
 def opShrink (bounded : Bool) : W Bool := do
+  checkLocked
   let w ← M.get
   let n := w.tables.length
   let mut anyFound := false
@@ -1201,7 +1202,9 @@ def opShrink (bounded : Bool) : W Bool := do
       M.set (w.setTbl t T')
       if s then anyFound := true
       if !T'.isFree && T'.len == 0 then
-        M.modify fun w => (w.modArch T'.arch fun A => A.freeTable t).modTbl t fun T => { T with isFree := true }
+        M.modify fun w => (w.modArch T'.arch fun A =>
+          (A.freeTable t).removeTableRelations t T'.targets).modTbl t fun T => { T with isFree := true }
+        M.modify fun w => w.cacheRemoveTable t
         anyFound := true
     if anyFound && bounded then
       stopIdx := t + 1
